@@ -1,31 +1,66 @@
 def svg_nontrivial(cmd, inp, impl, prev):
-    """a document with at least one appended element"""
+    """a document with at least one appended element; for the printer records: a non-empty string printed"""
     t = impl.split(" ")
-    return len(t) > 5 and t[0] == "doc" and t[4] != "0"
+    if cmd == "svg.esc":
+        return len(t) == 1 and len(t[0]) > len("3c74657874207374796c653d2222202f3e")   # more than `<text style="" />`
+    return len(t) > 8 and t[1] == "doc" and t[7] != "0"
 
 TB = "Trusted: Lean kernel (axioms propext, Classical.choice, Quot.sound only, audited per theorem), the correspondence check (sampled), the harness printers and Lean driver runtime. "
 
-PROP = dict(search_rounds=1, 
+PROP = dict(search_rounds=1,
     family="c15", session_start=None, trivial=svg_nontrivial,
     n=dict(quick=2500, thorough=15000),
     exhaustive=dict(quick=False, thorough=False),
-    rule="per generated topology (as for C13; labels none / one line / two lines / empty second line / three parts) two calls of "
-         "GenerateCompositeSVGdoc + GenerateCompositeSVG with: render switches default (labels+ids) or random; base SVG from 15 documents "
-         "(minimal, namespaced, nested with text and entities, multi-line attributes, comments, style block; invalid: empty, blank, unclosed, "
-         "mismatched, plain text, comment only, unquoted attribute, trailing garbage); availability map nil / empty / all non-zero / all zero / "
-         "random subset incl. foreign ids; the record carries every appended element (name, ordered attributes, text), whether the base's own "
-         "children and root attributes are unchanged, and whether the printed document re-parses; non-trivial = a document with at least one "
-         "appended element; distinct = distinct record text",
-    trusted_base=["go-xmldom / encoding/xml: parsing of the base document, printing and escaping (well-formedness and 'keeps the base content' are "
-                  "checked on the implementation by re-parsing / comparing, not proved)",
+    rule="per generated topology (as for C13; labels none / one line / two lines / empty second line / three parts; "
+         "sub-element styles with quotes, <, >, &, control bytes, non-ASCII, U+FFFE/U+FFFF) two calls of GenerateCompositeSVGdoc + GenerateCompositeSVG with: "
+         "render switches default (labels+ids) or random; base SVG from 28 documents - 10 valid (minimal, namespaced, nested with text and entities, "
+         "multi-line attributes, style block, CDATA + character references, DOCTYPE + quotes/control characters in attribute values + attribute order, "
+         "internal DTD subset + text in the root + standalone declaration, self-closing root), 18 invalid (empty, blank, unclosed, mismatched, plain text, "
+         "unquoted attribute, trailing garbage; no element at all: XML declaration only, declaration + newline, newline, one / two comments, declaration + "
+         "comment, DOCTYPE only - ParseXML returns err==nil with Root==nil; unknown entity, XML 1.1) - each combined with visible components; availability "
+         "map nil / empty / all non-zero / all zero / random subset incl. foreign ids; the record carries the encoding/xml token kinds of the base (input of "
+         "model and Spec), what the real xmldom.ParseXML returned (err / noroot / root), every appended element (name, ordered attributes, text, and the "
+         "text node.XML() printed for it), and four observed flags (tree comparison of the base part; encoding/xml token stream of the base contained in "
+         "order in that of doc.XML() and doc.XMLPretty(); both printed documents re-parse with one root and no duplicate attribute; both end with the "
+         "printed appended elements). Plus svg.esc records: the go-xmldom printer on a node whose attribute value and text are arbitrary bytes (invalid "
+         "UTF-8, control bytes, non-characters). Non-trivial = a document with at least one appended element / a non-empty printed string; distinct = "
+         "distinct record text",
+    trusted_base=["encoding/xml's tokenizer (Decoder.Token / RawToken): the token kinds of the base document enter model and Spec as data; the harness "
+                  "refuses a record whose token summary is not the one encoding/xml gives for its base",
+                  "go-xmldom's parsing of the base document into a tree and its printing of the base part: 'keeps the base content' and well-formedness of "
+                  "the WHOLE printed document are observed on the implementation (flags kept, kept2, wellformed, tail), not proved",
                   "json.Unmarshal of the topology text (C14: the text is ToJSON() output, parsed back to the same topology)",
-                  "fmt.Sprintf(\"%03f\") of the float32 rotation and of rotation+90 enter the model as a table supplied with each record",
-                  "the harness decides 'base SVG parsable' with encoding/xml (reads to EOF, at least one element)"],
-    assumptions=["coordinates and sizes small enough that Go int arithmetic does not overflow"],
+                  "fmt.Sprintf(\"%03f\") of the float32 rotation and of rotation+90 enter model and Spec as a table supplied with each record"],
+    assumptions=["coordinates and sizes small enough that Go int arithmetic does not overflow",
+                 "base documents on which the unchanged library loses content (comments, mixed content, namespace prefixes, processing instructions; list "
+                 "lossyBases in harness/svgicon.go, `bin/harness c15 -tier findings`) are reported as findings and are not generated"],
 )
 
 CLAIM = dict(
-    text="Lean theorem C15.svg_holds: for every topology, availability map (nil, empty, any entries), render switches and rotation-format table, the list of elements GenerateCompositeSVGdoc appends to the base document satisfies Spec.Svg.checkSVG: nothing for an unparsable base; otherwise exactly one group per visible component in order and nothing else - a main shape carrying id=HWc<id> (rect with x=X-W/2, y=Y-H/2, width, height when the resolved height is > 0, else circle at (X,Y) with r=W/2), then one rect/circle per r/c sub element at its offset, one text per label line (1 or 2), optional development texts, the id text - with no other element carrying an id; masked components contribute nothing (C15.masked_contribute_nothing, one_main_shape_per_visible, main_shape_geometry, label_count_*, id_text_present). The same predicate is evaluated on the real library's documents; model = code (every element, attribute order and text) is checked on generated cases.",
-    note=TB + "Well-formedness of the printed XML and preservation of the base document's content rest on go-xmldom/encoding/xml and are checked on the implementation only (re-parse, before/after comparison of the base's children).",
-    technique="Lean 4 proof (attribute calculus over SetAttributeValue, induction over components / sub elements / label lines) + model/implementation correspondence",
+    text="Lean theorems (Props/C15.lean, 22 audited). PROVED for every topology, availability map (nil, empty, any entries), render switches, rotation-format "
+         "table, base token stream and ALL byte strings as labels/styles: (1) C15.svg_appended_holds - the elements GenerateCompositeSVGdoc appends satisfy "
+         "Spec.Svg.checkAppended: each is well-formed as printed (name rect/circle/text; attribute names XML names and pairwise distinct; the printed text is "
+         "<name a=\"v\".. /> or <name a=\"v\"..>content</name> whose values/content contain no raw <, no raw & (only the five predefined entities and "
+         "character references to XML Chars), no raw quote in a value, only valid UTF-8 of XML Chars, no ]]> - C15.appended_wellformed, "
+         "printed_wellformed_any_node (the modelled printer = xml.EscapeText with utf8.DecodeRune, for any node), attr_names_distinct), and they are exactly one "
+         "group per visible component in order and nothing else: a main shape carrying id=HWc<id> (rect with x=X-W/2, y=Y-H/2, width, height when the resolved "
+         "height is > 0, else circle at (X,Y) with r=W/2) with transform=rotate(<%03f> X Y) exactly when the resolved rotation is not zero (neither 0 nor -0), "
+         "then one rect/circle per r/c sub element at its offset with the same transform rule and rx/ry/style exactly when the sub element's Rx/Ry/Style is "
+         "non-zero/non-empty, one text per label line (1 or 2), optional development texts, the id text - no other element carrying an id; masked components "
+         "contribute nothing (masked_contribute_nothing, one_main_shape_per_visible, main_shape_geometry, shape_rotation, transform_present_iff, label_count_*, "
+         "id_text_present). (2) C15.bad_svg_gives_empty - when the encoding/xml token stream of the base ends in an error, is empty, or contains no start "
+         "element (only a declaration / comments / white space: ParseXML returns err==nil, Root==nil) the modelled xmldom.Parse returns err or noRoot and the "
+         "result is none (the string wrapper returns \"\"); parse_root_iff_valid, valid_base_gives_document: a root is found exactly for the valid bases. "
+         "(3) C15.svg_verdict_is_observation / svg_holds - the verdict of the whole predicate Spec.Svg.checkSVG on the model's output is, for a valid base, "
+         "exactly the verdict on the four OBSERVED flags, and 'holds' for an invalid base. (4) label_positions, label_spacing, text_transform - not fixed by "
+         "the property text but by the code: label line a of cnt at x=X, y=Y+27+30a-(cnt*30)/2, lines 30 apart, texts rotate with the component (labels of "
+         "tall types by 90 degrees more). OBSERVED on the implementation only (every record): the base document's content is kept (tree comparison and "
+         "encoding/xml token-stream containment), the whole printed documents re-parse with one root and no duplicate attribute, and end with the printed "
+         "appended elements. The same predicate is evaluated on the real library's documents; model = code (parser outcome, every element, attribute order, "
+         "text and every printed byte) is checked on generated cases.",
+    note=TB + "'Keeps the base document's content' and well-formedness of the part of the document that comes from the base rest on go-xmldom/encoding/xml and "
+         "are observed, not proved; on the unchanged library they FAIL for valid base documents with comments, mixed content, namespace prefixes "
+         "(xlink:href, xml:space; duplicate attributes can result) or several processing instructions - reported findings, excluded from the generator.",
+    technique="Lean 4 proof (attribute calculus over SetAttributeValue, induction over components / sub elements / label lines; byte-level recogniser of "
+              "XML attribute values and content vs. the escape function, by units per decoded rune) + model/implementation correspondence",
 )
